@@ -258,6 +258,12 @@ func ctrInv(s *seqCounters) bool {
 //@   callsite (*segDataBuffer).dropSeqNr requires sameNumber: arg_seqNr == seqNr
 //@   callsite drop requires sameNumber: arg_seqNr == seqNr
 
+// SegmentHandlerFunc (upload handler): one answer per request on every path, also inside the read loop
+// of the raw-segment branch.
+//@ func (*Receiver).SegmentHandlerFunc
+//@   wiring
+//@   keep single-answer
+
 // The chunk callback of SegmentHandlerFunc: the file a segment is written to and the old file
 // removed from the sliding window are both named in the receiver's OUTGOING numbering
 // (rsd.seqNr, the number stored in the buffers and listed in the MPD), never the encoder's.
